@@ -563,7 +563,17 @@ func (c *Ctx) Quant(op string, bound []*Term, body *Term, pats [][]*Term) *Term 
 	}
 	t := c.mk(&Term{Op: op, Args: []*Term{body}, Bound: bound, Sort: Bool})
 	if t.Pats == nil {
-		t.Pats = pats
+		ok := true
+		for _, ps := range pats {
+			for _, p := range ps {
+				if !validPattern(p, map[*Term]bool{}) {
+					ok = false
+				}
+			}
+		}
+		if ok {
+			t.Pats = pats
+		}
 	}
 	// open iff mentions bound vars other than its own
 	t.open = false
@@ -599,6 +609,25 @@ func (c *Ctx) Quant(op string, bound []*Term, body *Term, pats [][]*Term) *Term 
 	}
 	t.open = walk(body)
 	return t
+}
+
+// validPattern: solvers accept only function applications (no connectives,
+// ite, arithmetic relations) inside patterns.
+func validPattern(p *Term, seen map[*Term]bool) bool {
+	if seen[p] {
+		return true
+	}
+	seen[p] = true
+	switch p.Op {
+	case "ite", "not", "and", "or", "=>", "=", "<", "<=", "forall", "exists", "true", "false":
+		return false
+	}
+	for _, a := range p.Args {
+		if !validPattern(a, seen) {
+			return false
+		}
+	}
+	return true
 }
 
 func walkQ(u *Term, outer map[*Term]bool) bool {
